@@ -41,6 +41,12 @@ var rules = map[string]string{
 	"C08": "database + one of 8 kinds of damaged tail appended to a random segment (zeroes, strict prefix, bit flip in key/value/crc, garbage, valid-after-damaged, complete unacknowledged record, flip in length fields, huge claimed sizes); recovering Open compared with an independent decoder of the documented format and with the Coq reader",
 }
 
+// extraChecks: oracle-only parts of a property that do not go through the model driver (sizes the
+// list-based model cannot run in reasonable time)
+var extraChecks = map[string]func(r *rng, tier string, res *Result){
+	"C15": c15LargeGarbage,
+}
+
 var specialGens = map[string]func(r *rng, tier string, res *Result){
 	"C06": genPowerLoss("C06"),
 	"C09": genPowerLoss("C09"),
@@ -104,6 +110,9 @@ func runCheck(args []string) int {
 	runCases(res, cases, impls, !noModel)
 	for i := 0; i < len(cases) && i < 2; i++ {
 		res.sample(cases[i], 25)
+	}
+	if extra, ok := extraChecks[prop]; ok {
+		extra(r, *tier, res)
 	}
 	writeResult(res, *out)
 	if len(res.Findings) > 0 {
